@@ -2061,4 +2061,74 @@ theorem prefix_step {a : Auth} {e : AEv} (hp : Prefix a) (he : FromOpen a e) : P
         · exact ⟨by simp, by simp⟩
         · exact ⟨hp0, hp1⟩
 
+
+/-! ### vocabulary of the trace-level theorems of C43 and its induction lemmas -/
+
+/-- the decoder accepted content `c` for resource `k` in some response of the history -/
+def Accepted (hist : List AEv) (k : Key) (c : String) : Prop :=
+  ∃ srv gen ver es, AEv.update srv gen k.typ ver es ∈ hist ∧ entLookup es k.name = some (.ok c)
+
+theorem cacheAcc_run (es : List AEv) (a : Auth) (hist : List AEv)
+    (h : ∀ p ∈ a.res, ∀ c, p.2.cache = some c → Accepted hist p.1 c) :
+    ∀ p ∈ (Auth.run a es).res, ∀ c, p.2.cache = some c → Accepted (hist ++ es) p.1 c := by
+  induction es generalizing a hist with
+  | nil => simpa [Auth.run] using h
+  | cons e es ih =>
+    simp only [Auth.run]
+    have := ih (a.step e).auth (hist ++ [e]) (by
+      intro p hp c hc
+      rcases cache_step hp hc with ⟨srv, gen, ver, es', rfl, he⟩ | ⟨q, hq, hk, hqc⟩
+      · exact ⟨srv, gen, ver, es', by simp, he⟩
+      · obtain ⟨srv, gen, ver, es', hm, he⟩ := h q hq c hqc
+        rw [hk] at hm he
+        exact ⟨srv, gen, ver, es', by simp [hm], he⟩)
+    simpa using this
+
+
+/-- along a history, feed every watcher's callbacks (in order) to `Spec.okSeq`: the per-watcher record
+    `WG` remembers the content of the last ResourceChanged (forgotten on a ResourceError) and whether a NACK
+    was reported since; `okSeq` is false iff some ResourceChanged repeats the held content without a NACK in
+    between. The same `okSeq` / `WG.apply` run in the monitor on the implementation's callback log. -/
+def NoDupRun : Auth → (Nat → WG) → List AEv → Prop
+  | _, _, [] => True
+  | a, G, e :: es =>
+    (∀ w, okSeq (ghost0 G e w) (cbsFor w (a.step e).cbs) = true) ∧
+    NoDupRun (a.step e).auth (ghostStep G e (a.step e).cbs) es
+
+theorem noDupRun_of_inv (es : List AEv) (a : Auth) (G : Nat → WG) (hi : AInv a) (hg : Agree a G)
+    (hf : FreshRun a es) : NoDupRun a G es := by
+  induction es generalizing a G with
+  | nil => trivial
+  | cons e es ih =>
+    obtain ⟨hfe, hfr⟩ := hf
+    have := ghost_step hi hg hfe
+    exact ⟨this.1, ih _ _ (inv_step hi hfe) this.2 hfr⟩
+
+
+/-- the per-watcher records along a history -/
+def ghostRun : Auth → (Nat → WG) → List AEv → (Nat → WG)
+  | _, G, [] => G
+  | a, G, e :: es => ghostRun (a.step e).auth (ghostStep G e (a.step e).cbs) es
+
+theorem agree_run (es : List AEv) (a : Auth) (G : Nat → WG) (hi : AInv a) (hg : Agree a G) (hf : FreshRun a es) :
+    Agree (Auth.run a es) (ghostRun a G es) := by
+  induction es generalizing a G with
+  | nil => exact hg
+  | cons e es ih => exact ih _ _ (inv_step hi hf.1) (ghost_step hi hg hf.1).2 hf.2
+
+
+/-- the subscriptions held on the channels along a history: the commands applied to a ledger -/
+def ledgerRun : Auth → List (Nat × Key) → List AEv → List (Nat × Key)
+  | _, L, [] => L
+  | a, L, e :: es => ledgerRun (a.step e).auth (ledgerCmds L (a.step e).cmds) es
+
+theorem ledger_run (es : List AEv) (a : Auth) (L : List (Nat × Key)) (hi : AInv a) (hb : Bounded a) (hw : Watched a)
+    (hl : LedgerOK a L) (hf : FreshRun a es) :
+    LedgerOK (Auth.run a es) (ledgerRun a L es) ∧ Watched (Auth.run a es) := by
+  induction es generalizing a L with
+  | nil => exact ⟨hl, hw⟩
+  | cons e es ih =>
+    exact ih _ _ (inv_step hi hf.1) (bounded_step hb) (watched_step hi hw) (ledger_step hi hb hl) hf.2
+
+
 end GrpcProofs.Lemmas.XdsAuth
